@@ -279,9 +279,15 @@ impl World {
             results,
             raw_results: None,
         });
+        // leftover fold lore for values whose iteration was started is not finding F1
+        // (nor is lore left over because the fold skipped values at or above its cursor)
+        let lore_unexplained = out.probes.iter().any(|(n, _)| n == "fold_end_leftover_lore_unexplained" || n == "stream_fold_unvisited_values_unexplained");
         for (n, d) in &out.probes {
             // unvisited values with nothing added below the cursor are not finding F16
             if n == "stream_fold_unvisited_values" && d.ends_with("added_below_cursor=0") {
+                continue;
+            }
+            if n == "fold_end_leftover_lore" && lore_unexplained {
                 continue;
             }
             self.shadow_probes.insert(n.clone());
@@ -491,7 +497,7 @@ impl World {
                     if n == "stream_fold_unvisited_values" && !d.ends_with("added_below_cursor=0") {
                         taint.insert("F16".into());
                     }
-                    if n == "fold_end_leftover_lore" {
+                    if n == "fold_end_leftover_lore" && !out.probes.iter().any(|(m, _)| m == "fold_end_leftover_lore_unexplained" || m == "stream_fold_unvisited_values_unexplained") {
                         taint.insert("F1".into());
                     }
                     if n == "fold_window_unread_states" {
